@@ -71,6 +71,8 @@ func fatal(f string, a ...any) {
 	os.Exit(2)
 }
 
+var routerInbox = flag.Int("routerinbox", 1024, "initial inbox size of the remote stream router (0 = keep the repository's value)")
+
 type setFlag map[string]string
 
 func (s setFlag) String() string { return "" }
@@ -87,7 +89,7 @@ func main() {
 	repo := flag.String("repo", "/repo", "repository root")
 	verif := flag.String("verif", "/verif", "verif root")
 	out := flag.String("out", "", "output directory")
-	netshim := flag.Bool("netshim", false, "redirect transport imports of package remote (C17)")
+	netshim := flag.Bool("netshim", true, "redirect transport imports of package remote (C17)")
 	pkgsFlag := flag.String("pkgs", "ringbuffer,safemap,actor,remote,cluster", "packages to rewrite")
 	sets := setFlag{}
 	flag.Var(sets, "set", "override a constant: pkg.name=value")
@@ -335,6 +337,17 @@ func (r *rewriter) rewrite(f *ast.File) bool {
 			c.Replace(call(vs(fn), n.X))
 			r.needVS = true
 		case *ast.CallExpr:
+			// declared parameter change: the stream router's initial inbox size (1Mi entries, 24 MB
+			// zeroed per engine) is scaled down; the ring buffer grows on demand, so only the
+			// allocation cost of every explored execution changes.
+			if se, ok := n.Fun.(*ast.SelectorExpr); ok && r.pkg == "remote" && se.Sel.Name == "WithInboxSize" && len(n.Args) == 1 && *routerInbox > 0 {
+				if x, ok := se.X.(*ast.Ident); ok && x.Name == "actor" {
+					if _, isLit := n.Args[0].(*ast.BasicLit); !isLit {
+						n.Args[0] = &ast.BasicLit{Kind: token.INT, Value: strconv.Itoa(*routerInbox)}
+						r.note(n, "router inbox size scaled to "+strconv.Itoa(*routerInbox))
+					}
+				}
+			}
 			if id, ok := n.Fun.(*ast.Ident); ok && id.Name == "close" && len(n.Args) == 1 {
 				if _, isBuiltin := r.info.Uses[id].(*types.Builtin); isBuiltin {
 					r.note(n, "close")
